@@ -446,6 +446,15 @@ def cost_suite(ctx):
         except Exception as e:  # noqa: BLE001
             goal, v = "False", f"{type(e).__name__}: {e}"
         G.append(("annual-cost-formula", "annual cost = K i / (1 - (1+i)^-n)", dict(capital_cost=K, rate=i, years=n, returned=v), goal))
+        # a service life need not be a whole number of years: the same closed form with a real exponent
+        nf = rng.randint(1, 29) + rng.choice([0.25, 0.5, 0.75])
+        try:
+            v = float(costing.compute_annual_capital_cost(K, i, nf))
+            t = tolq(v)
+            goal = f"Rabs ({rl(K)} * ({rl(i)} / (1 - Rpower (1 + {rl(i)}) (- {rl(nf)}))) - {rl(v)}) <= {t.numerator} / {t.denominator}"
+        except Exception as e:  # noqa: BLE001
+            goal, v = "False", f"{type(e).__name__}: {e}"
+        G.append(("annual-cost-formula", "annual cost = K i / (1 - (1+i)^-n), fractional life", dict(capital_cost=K, rate=i, years=nf, returned=v), goal))
     wd = ctx.workdir / "cost"
     wd.mkdir(parents=True, exist_ok=True)
     nshard = 8
